@@ -257,27 +257,39 @@ Definition bnormal (now : Z) (s : server) (b : blocking) (c dbi : Z) (parts : li
   | _ => match normal_command now s c dbi parts oracle with (r, s') => (r, s', b) end
   end.
 
-(** handle_exec: the queue runs through process_normal_command with connection id 0 *)
-Fixpoint bexec_queue (now : Z) (s : server) (b : blocking) (dbi : Z) (q : list (list frame)) (acc : list frame)
+(** handle_exec: the queue runs through process_normal_command with connection id 0 and the
+    database selected when EXEC arrived; a queued SELECT (1ecc022) runs for the connection that
+    sent EXEC and what follows it runs in the database it selected.  (The pub/sub commands and
+    AUTH, which handle_exec also runs for the connection since 51742a5, do not touch the
+    blocking manager; as in Server.exec_queue they are not singled out here.) *)
+Fixpoint bexec_queue (now : Z) (s : server) (b : blocking) (c dbi : Z) (q : list (list frame)) (acc : list frame)
   : list frame * server * blocking :=
   match q with
   | [] => (rev acc, s, b)
-  | parts :: r => match bnormal now s b 0 dbi parts None None with
-                  | (rep, s', b') => bexec_queue now s' b' dbi r (rep :: acc)
-                  end
+  | parts :: r =>
+      if beq (queued_name parts) (bs "SELECT") then
+        match bnormal now s b c dbi parts None None with
+        | (rep, s', b') =>
+            let dbi' := match zlookup c (s_conns s') with Some cn => c_db cn | None => dbi end in
+            bexec_queue now s' b' c dbi' r (rep :: acc)
+        end
+      else
+        match bnormal now s b 0 dbi parts None None with
+        | (rep, s', b') => bexec_queue now s' b' c dbi r (rep :: acc)
+        end
   end.
 Definition bh_exec (now : Z) (s : server) (b : blocking) (c : Z) (cn : conn) : frame * server * blocking :=
   if negb (c_intx cn) then (r_err, s, b) else
-  if existsb (fun kb => was_modified_since now s (c_db cn) (fst kb) (snd kb)) (c_watched cn)
+  if watch_violated now s cn
   then (FNullArray, set_conn s c (clear_tx cn), b)
   else
     let s1 := set_conn s c (clear_tx cn) in
-    match bexec_queue now s1 b (c_db cn) (c_queue cn) [] with
+    match bexec_queue now s1 b c (c_db cn) (c_queue cn) [] with
     | (reps, s2, b2) => (FArray reps, s2, b2)
     end.
 
-(** process_frame: same routing as Server.process_frame; only EXEC and the commands that
-    reach process_normal_command involve the blocking manager *)
+(** process_frame: same routing as Server.process_frame (the queueing test first, 51742a5);
+    only EXEC and the commands that reach process_normal_command involve the blocking manager *)
 Definition bprocess_frame (now : Z) (s : server) (b : blocking) (c : Z) (req : frame)
            (oracle : option frame) (oms : option Z) : frame * server * blocking :=
   let pass := match process_frame now s c req oracle with (r, s') => (r, s', b) end in
@@ -289,11 +301,11 @@ Definition bprocess_frame (now : Z) (s : server) (b : blocking) (c : Z) (req : f
       | None => pass
       | Some cn =>
           if (match s_password s with Some _ => true | None => false end) && negb (c_auth cn) then pass
+          else if c_intx cn && negb (mem_name command tx_not_queued) then pass
           else if beq command (bs "MULTI") then pass
           else if beq command (bs "EXEC") then bh_exec now s b c cn
           else if beq command (bs "DISCARD") || beq command (bs "WATCH") || beq command (bs "UNWATCH")
                   || beq command (bs "AUTH") then pass
-          else if c_intx cn && negb (mem_name command tx_not_queued) then pass
           else bnormal now s b c (c_db cn) parts oracle oms
       end
   | _ => pass
